@@ -1,0 +1,45 @@
+//go:build verif
+
+package bridgesync
+
+import (
+	"context"
+	"database/sql"
+
+	"github.com/agglayer/aggkit/log"
+	"github.com/agglayer/aggkit/sync"
+	"github.com/agglayer/aggkit/tree"
+)
+
+// NewVerifBridgeSync builds the real BridgeSync facade around a real processor (real SQLite store on dbPath)
+// without driver, downloader, RPC client or contract binding. Plain functions, so the method set of
+// *BridgeSync stays exactly the product's.
+func NewVerifBridgeSync(dbPath string, originNetwork uint32) (*BridgeSync, error) {
+	p, err := newProcessor(dbPath, "bridge_sync_verif", log.WithFields("module", "verif"))
+	if err != nil {
+		return nil, err
+	}
+	return &BridgeSync{processor: p, originNetwork: originNetwork}, nil
+}
+
+// VerifProcessBlock hands one block (Events are bridgesync.Event values) to the real processor.
+func VerifProcessBlock(ctx context.Context, s *BridgeSync, b sync.Block) error {
+	return s.processor.ProcessBlock(ctx, b)
+}
+
+// VerifReorg calls the real processor's Reorg.
+func VerifReorg(ctx context.Context, s *BridgeSync, firstReorgedBlock uint64) error {
+	return s.processor.Reorg(ctx, firstReorgedBlock)
+}
+
+// VerifDB returns the processor's SQLite handle (fault-injection triggers, synthetic pre-states).
+func VerifDB(s *BridgeSync) *sql.DB { return s.processor.db }
+
+// VerifExitTree returns the processor's exit tree.
+func VerifExitTree(s *BridgeSync) *tree.AppendOnlyTree { return s.processor.exitTree }
+
+// VerifIsHalted reports the processor's halted flag.
+func VerifIsHalted(s *BridgeSync) bool { return s.processor.isHalted() }
+
+// VerifClose closes the store.
+func VerifClose(s *BridgeSync) error { return s.processor.db.Close() }
